@@ -56,6 +56,13 @@ func CheckDamagedHeaders(img []byte, cfg Config, states map[uint64]*MState, hp H
 		return violationf("harness", -1, "image too small")
 	}
 	st.Images++
+	// The premise of the property: the file carries two header pages. At a commit boundary (and right
+	// after creation) both are intact, one describing the newest and one the previous state; a header
+	// that the library itself wrote invalid leaves nothing to fall back to when the other one is damaged.
+	if h0, h1 := ParseHeader(img[0:]), ParseHeader(img[ps:]); !h0.Valid || !h1.Valid {
+		return violationf("header-not-redundant", -1, "undamaged image at a commit boundary: header page 0 valid=%v (txid %d), header page 1 valid=%v (txid %d): one header is unusable before any damage",
+			h0.Valid, h0.TxID, h1.Valid, h1.TxID)
+	}
 	rnd := NewRand(hp.Seed)
 	orig := [2][]byte{append([]byte(nil), img[0:size]...), append([]byte(nil), img[ps:ps+size]...)}
 	work := append([]byte(nil), img...)
